@@ -21,6 +21,9 @@ def run(ctx):
                                            ('ApplyWritesVariations', 'ToYamlWritesDefaults', 'CollectEdgesAppends', 'DeriveAppendsToEdgelessBase')}
     behs = [b for b in behs if len(b['calls']) >= 2]
     derived = [b for b in behs if any(c['a'] == 'derive2' for c in b['calls'])]      # a circuit derived from an edge-less base
+    import random
+    random.Random(ctx.seed).shuffle(derived)
+    derived = sorted(derived, key=lambda b: len(b['calls']))[:400 if tier == 'quick' else 3000]       # shortest first, then a seeded sample
     ac.judge_all(ctx, behs, 'compiled model after read-only operations', cap=1500 if ctx.tier == "quick" else 25000, always=derived)
     hierarchy(ctx)
     for b in behs[len(behs) // 2: len(behs) // 2 + 2]:
